@@ -391,8 +391,6 @@ def record_executions(cache, wd, thorough, nops):
         path = os.path.join(wd, "sizerace-%d.ndjson" % i)
         with open(path, "w") as f:
             f.write(p.stdout)
-        if p.stdout.count('"ev":"sweep"') == 0:
-            raise vlib.ToolError("vacuity guard: the size-race run recorded no sweep of the cache")
         hreq += p.stdout.count('"ev":"end"')
         files.append(("handlers racing for the size bound limit=%d threads=%d" % (lim, th), "Trace_StaticCache.tla", "Trace_StaticCache.cfg", path,
                       p.stdout.count("\n"), 1))
